@@ -136,6 +136,13 @@ func (a *AggchainProverFlow) CheckInitialStatus(ctx context.Context) error {
 		return fmt.Errorf("aggchainProverFlow - error waiting for syncer to catch up: %w", err)
 	}
 
+	// once a certificate reaches the start L2 block there is no gap left in front of it: the blocks
+	// between the start L2 block and the last sent certificate are covered by earlier certificates
+	if lastSentCertificate != nil && !lastSentCertificate.Status.IsInError() &&
+		lastSentCertificate.ToBlock >= startL2Block {
+		return nil
+	}
+
 	if err := a.baseFlow.VerifyBlockRangeGaps(
 		ctx, lastSentCertificate, startL2Block, startL2Block); err != nil {
 		return fmt.Errorf("aggchainProverFlow - error verifying block range gaps on startup. Err: %w", err)
